@@ -672,6 +672,9 @@ class Data(Field):
 
                 elif isinstance(self.byte_count, Field):
                     byte_count = getattr(pkt, self.byte_count.field_name)
+                    if isinstance(byte_count, Any):
+                        # the size is not fixed by the pattern
+                        byte_count = None
 
                 elif callable(self.byte_count):
                     try:
